@@ -655,12 +655,17 @@ def check_stream(cfg, acc, lengths=None):
         pos = cfg.get("seek")
         ks = R_cc.chacha20_stream(key, nonce, Lmax, pos or 0)
 
-        def mk():
+        pre = cfg.get("pre")
+
+        def mk(dec=False):
             o = ChaCha20.new(key=key, nonce=nonce)
+            if pre is not None:           # the object has been somewhere else before: seek, use, seek again
+                o.seek(pre)
+                (o.decrypt if dec else o.encrypt)(b"x")
             if pos is not None:
                 o.seek(pos)
             return o
-        sig = (cfg["nl"], pos)
+        sig = (cfg["nl"], pos) if pre is None else (cfg["nl"], pos, "after", pre)
     if len(ks) != Lmax:
         acc.error("reference keystream length")
         return
@@ -674,7 +679,7 @@ def check_stream(cfg, acc, lengths=None):
         try:
             e = mk()
             got = e.encrypt(pt)
-            back = mk().decrypt(exp)
+            back = (mk(True) if c == "ChaCha20" else mk()).decrypt(exp)
         except Exception as ex:  # noqa
             if cfg.get("lastblock") and isinstance(ex, (ValueError, OverflowError)):
                 # limit territory (C11): the reference (RFC 8439: counter values 0..2^32-1) can use block 2^32-1,
@@ -1189,6 +1194,14 @@ def cases_of(shard, quick, seed):
         for pos in (0, 1, 63, 64, 65, 127, 128, 64 * 255 + 63, 64 * 256, 64 * 65536 + 1, 64 * (2 ** 32 - 11) + 5):
             yield ("stream", {"part": "stream", "c": "ChaCha20", "klen": 32, "vc": vc, "seed": seed, "nl": nl,
                               "seek": pos}, [0, 1, 63, 64, 65, 129, 513])
+        # two seeks on one object: every ordered pair of positions on both sides of the word boundaries of the counter
+        two = [5, 64 * 255 + 63, 64 * (2 ** 32 - 11) + 5] + ([64 * 2 ** 32, 64 * (2 ** 32 + 1) + 1, 64 * (2 ** 40 - 1) + 63,
+                                                            64 * (2 ** 63 + 7)] if nl == 8 else [])
+        for pre in two:
+            for pos in two:
+                if pre != pos:
+                    yield ("stream", {"part": "stream", "c": "ChaCha20", "klen": 32, "vc": vc, "seed": seed, "nl": nl,
+                                      "pre": pre, "seek": pos}, [1, 65, 130])
         if nl == 8:      # 64-bit block counter: the carry out of the low counter word happens inside the message
             for pos in (64 * (2 ** 32 - 1) + 60, 64 * (2 ** 32 - 2) + 3, 64 * 2 ** 32, 64 * (2 ** 32 + 1) + 1,
                         64 * (2 ** 40 - 1) + 63):
